@@ -235,6 +235,7 @@ pub struct PeerShared {
     /// the last unsolicited fragment sent (for exact repeats)
     pub last_unsol: Option<(u16, Vec<u8>)>,
     pub last_delivery_ms: u64,
+    pub last_deviation_ms: u64,
 }
 
 pub type Peer = Arc<Mutex<PeerShared>>;
@@ -495,6 +496,9 @@ fn on_fragment(p: &mut PeerShared, src: u16, dest: u16, bytes: &[u8], worder: u6
         return;
     }
     let reply = p.outstations[oi].replies.pop_front().unwrap_or(Reply::Faithful);
+    if reply != Reply::Faithful {
+        p.last_deviation_ms = t;
+    }
     // a new request aborts a series in progress
     p.outstations[oi].series.clear();
 
@@ -506,6 +510,21 @@ fn on_fragment(p: &mut PeerShared, src: u16, dest: u16, bytes: &[u8], worder: u6
     let mut hold_ms: u64 = 0;
     match func {
         refapp::FUNC_READ if !(bytes.len() >= 16 && bytes[2] == 70 && bytes[3] == 5) => {
+            // like a real outstation: once the events of a class have been read they are no longer "available", and reading events
+            // ends the overflow condition (otherwise a master that reacts to these indications would be driven round in circles)
+            if let Ok(f) = refapp::decode_fragment(bytes) {
+                let mut any = false;
+                for h in &f.headers {
+                    if h.group == 60 && (2..=4).contains(&h.var) {
+                        p.outstations[oi].iin.0 &= !(1u8 << (h.var - 1));
+                        any = true;
+                    }
+                }
+                if any {
+                    p.outstations[oi].iin.1 &= !0x08;
+                }
+            }
+            let iin = p.outstations[oi].iin;
             let shape = p.outstations[oi].read_shape.clone();
             let n = shape.len().max(1);
             for (k, count) in shape.iter().enumerate() {
@@ -955,6 +974,15 @@ pub struct MastRun {
     pub end_ms: u64,
     /// (user request id, association address, what was asked)
     pub user_kinds: Vec<(u64, u16, UserKind)>,
+    /// fragments in the order and at the moments the master's transport reader handed them to its application layer (hook H5):
+    /// (virtual ms, order, link source, octets)
+    pub master_rx: Vec<(u64, u64, u16, Vec<u8>)>,
+    /// reply policies still queued in the scripted outstations at the end of the run
+    pub leftover_replies: usize,
+    /// when the scripted outstation last answered with anything but the faithful response
+    pub last_deviation_ms: u64,
+    /// associations whose outstation can never satisfy the master (reserved)
+    pub stuck_indications: Vec<u16>,
 }
 
 fn classes_of(mask: u8) -> Classes {
@@ -1058,6 +1086,7 @@ fn spawn_user(sim: &Sim, node: &MasterNode, id: u64, assoc: &AssociationHandle, 
 }
 
 pub async fn drive(sim: &Sim, case: &SmastCase) -> MastRun {
+    sim.core().record_popped.set(true);
     let net = SimNetwork::new(ChunkMode::from_index(case.chunk as u64), case.chunk_seed);
     net.set_latency(case.latency.0, case.latency.1, 0, 0);
     let peer: Peer = Arc::new(Mutex::new(PeerShared {
@@ -1071,6 +1100,7 @@ pub async fn drive(sim: &Sim, case: &SmastCase) -> MastRun {
         rx_count: 0,
         last_unsol: None,
         last_delivery_ms: 0,
+        last_deviation_ms: 0,
     }));
     sim.spawn("scripted-outstation", peer_task(peer.clone(), net.clone()));
     let mut node = MasterNode::start(sim, &case.cfg, net.clone()).await;
@@ -1256,13 +1286,19 @@ pub async fn drive(sim: &Sim, case: &SmastCase) -> MastRun {
     }
     sim.settle().await;
     let end_ms = sim.now_ms();
+    let leftover_replies: usize = peer.lock().unwrap().outstations.iter().map(|o| o.replies.len()).sum();
+    let peer_log = peer.lock().unwrap().log.clone();
     let run = MastRun {
-        peer_log: peer.lock().unwrap().log.clone(),
+        peer_log,
         master_log: node.rec.lock().unwrap().log.clone(),
         op_marks,
         net_attempts: net.attempts(),
         end_ms,
         user_kinds,
+        leftover_replies,
+        last_deviation_ms: peer.lock().unwrap().last_deviation_ms,
+        master_rx: sim.core().popped.borrow().clone(),
+        stuck_indications: Vec::new(),
     };
     run
 }
